@@ -1108,7 +1108,8 @@ func c02Bound(r *verifkit.Rand, na time.Time, before bool) time.Time {
 	return na.Add(pass[r.Intn(len(pass))])
 }
 
-var c02ExtChoices = [][]asn1.ObjectIdentifier{{asn1.ObjectIdentifier{1, 2, 3, 4, 5, 6}}, {asn1.ObjectIdentifier{1, 3, 6, 1, 4, 1, 11129, 2, 4, 3}},
+var c02ExtChoices = [][]asn1.ObjectIdentifier{{asn1.ObjectIdentifier{2, 5, 29, 19}, asn1.ObjectIdentifier{2, 5, 29, 98}, asn1.ObjectIdentifier{2, 5, 29, 99}},
+	{asn1.ObjectIdentifier{2, 5, 29, 97}, asn1.ObjectIdentifier{2, 5, 29, 15}, asn1.ObjectIdentifier{2, 5, 29, 99}},{asn1.ObjectIdentifier{1, 2, 3, 4, 5, 6}}, {asn1.ObjectIdentifier{1, 3, 6, 1, 4, 1, 11129, 2, 4, 3}},
 	{asn1.ObjectIdentifier{2, 5, 29, 19}}, {asn1.ObjectIdentifier{9, 9, 9}, asn1.ObjectIdentifier{2, 5, 29, 37}}}
 var c02ExtAbsent = [][]asn1.ObjectIdentifier{{asn1.ObjectIdentifier{9, 9, 9}}, {asn1.ObjectIdentifier{9, 9, 9}, asn1.ObjectIdentifier{2, 5, 29, 99}}}
 var c02OptEKUs = [][]x509.ExtKeyUsage{{x509.ExtKeyUsageServerAuth}, {x509.ExtKeyUsageClientAuth}, {x509.ExtKeyUsageAny},
@@ -1233,6 +1234,7 @@ func TestVerifC02(t *testing.T) {
 	c02PassThrough(e)
 	c02Copies(e)
 	c02ConfigEKU(e)
+	c02ConfigRejectExt(e)
 	c02Incomplete(e)
 	c02PoisonFixed(e)
 	c02Fixed(e)
@@ -1408,6 +1410,44 @@ func c02ConfigEKU(e *c02Env) {
 		for _, want := range [][]x509.ExtKeyUsage{{x509.ExtKeyUsageServerAuth}, {x509.ExtKeyUsageServerAuth, x509.ExtKeyUsageClientAuth}, {x509.ExtKeyUsageCodeSigning}} {
 			e.eval(k, []string{leaf.label, fmt.Sprint("leaf EKUs ", leafEKU)}, c02Opts{ekus: want, viaConfig: true}, 1)
 			e.out.Count("mode:eku-filter-via-config")
+		}
+	}
+}
+
+// c02ConfigRejectExt: reject_extensions lists of 2–4 OIDs with the same number of arcs, built through the server's
+// configuration path, against a leaf that carries each listed OID in turn (first, middle, last position of the list).
+func c02ConfigRejectExt(e *c02Env) {
+	keys := vKeys()
+	root := vIssue(vSpec{cn: "rej root", key: keys[2], isCA: true, keyUsage: vCAUsage})
+	// the leaf carries keyUsage 2.5.29.15, basicConstraints 2.5.29.19, authorityKeyIdentifier 2.5.29.35, extKeyUsage 2.5.29.37
+	leaf := vIssue(vSpec{cn: "rej leaf", key: keys[11], issuer: root, keyUsage: stdx509.KeyUsageDigitalSignature, ekus: []stdx509.ExtKeyUsage{stdx509.ExtKeyUsageServerAuth}})
+	k := c02NewCase([]*vCert{root}, [][]byte{leaf.der})
+	oid := func(last int) asn1.ObjectIdentifier { return asn1.ObjectIdentifier{2, 5, 29, last} }
+	present, absent := []int{15, 19, 35, 37}, []int{98, 99, 97}
+	for n := 2; n <= 4; n++ {
+		for pos := 0; pos < n; pos++ { // the position of the one OID the leaf carries
+			for _, p := range present {
+				var list []asn1.ObjectIdentifier
+				for i := 0; i < n; i++ {
+					if i == pos {
+						list = append(list, oid(p))
+					} else {
+						list = append(list, oid(absent[i%len(absent)]))
+					}
+				}
+				if e.eval(k, []string{leaf.label, fmt.Sprint("reject_extensions ", list)}, c02Opts{rejExt: list, viaConfig: true}, 1) {
+					e.out.Fail(fmt.Sprintf("config reject_extensions %v, leaf carries %v", list, oid(p)), "admitted")
+				}
+				e.out.Count("mode:reject-extensions-via-config")
+			}
+		}
+		// none of the listed OIDs is in the leaf: admitted
+		var none []asn1.ObjectIdentifier
+		for i := 0; i < n; i++ {
+			none = append(none, oid(absent[i%len(absent)]))
+		}
+		if !e.eval(k, []string{leaf.label, fmt.Sprint("reject_extensions ", none)}, c02Opts{rejExt: none, viaConfig: true}, 1) {
+			e.out.Fail(fmt.Sprintf("config reject_extensions %v, leaf carries none of them", none), "rejected")
 		}
 	}
 }
